@@ -526,6 +526,8 @@ pub fn cfg_from_opts(opts: &Opts) -> Cfg {
         "maha" => PositionalMetricType::Mahalanobis,
         o => panic!("metric {}", o),
     };
+    c.pos_w = opts.f64("pos-w", 1.0 / 20.0) as f32;
+    c.vel_w = opts.f64("vel-w", 1.0 / 160.0) as f32;
     c.min_votes = opts.usize("min-votes", 1);
     c.max_obs = opts.usize("max-obs", 2);
     c.min_track_len = opts.usize("min-track-len", 1);
